@@ -173,7 +173,7 @@ fn valid_bytes(g: &mut Gen, kind: u32) -> Vec<u8> {
 
 pub fn search_dec(seed: u64, budget: u64, try_one: &mut dyn FnMut(Input) -> bool) {
     let mut g = Gen(seed.wrapping_mul(0x9E3779B97F4A7C15) ^ 0xABCDEF);
-    for k in 0..budget.min(6000) {
+    for k in 0..(if budget > 100_000 { 60_000 } else { budget.min(6000) }) {
         let kind = (k % 9) as u32;
         let mut bytes = if g.n(3) == 0 { (0..g.n(12)).map(|_| g.n(256) as u8).collect() } else { valid_bytes(&mut g, kind) };
         match g.n(5) {
@@ -189,10 +189,10 @@ pub fn search_dec(seed: u64, budget: u64, try_one: &mut dyn FnMut(Input) -> bool
     }
 }
 
-pub fn search(budget: u64, try_one: &mut dyn FnMut(Input) -> bool) {
-    for seed in 0..(budget / 8).min(1500) {
+pub fn search(outer: u64, budget: u64, try_one: &mut dyn FnMut(Input) -> bool) {
+    for seed in 0..(if budget > 100_000 { 15_000 } else { (budget / 8).min(1500) }) {
         for kind in 0..8 {
-            if try_one(Input::new("proto_zoo").v(kind).v(seed)) {
+            if try_one(Input::new("proto_zoo").v(kind).v((outer - 1).wrapping_mul(1_000_003) + seed)) {
                 return;
             }
         }
